@@ -671,9 +671,21 @@ class Executor(Engine, ExprMixin, StmtMixin, CallMixin):
                     seq = self.apply_contract(st, self.registry.get(q), None, [seq], {}, s.lineno)
                     break
         is_str = isinstance(seq, V) and seq.hint is not None and seq.hint.kind == 'str' and not seq.hint.opt
-        if not is_str and not (isinstance(seq, V) and seq.hint is not None and seq.hint.kind in ('list', 'tuple', 'dict', 'set')):
+        is_range = (isinstance(seq, PyObj) and isinstance(seq.o, tuple) and len(seq.o) == 2 and seq.o[0] is range and
+                    len(seq.o[1]) == 1 and isinstance(seq.o[1][0], V))
+        if is_range:
+            # for i in range(n) with a symbolic n: the i-th item is i, the length is max(n, 0)
+            bound = Val.i(seq.o[1][0].t)
+            rng_len = z3.If(bound >= 0, bound, z3.IntVal(0))
+            is_str = True          # shares the "immutable sequence" path below (no list reference, no iter_unchanged)
+            sstr = None
+            r = None
+            length_of = lambda state: rng_len
+        elif not is_str and not (isinstance(seq, V) and seq.hint is not None and seq.hint.kind in ('list', 'tuple', 'dict', 'set')):
             raise EngineError('for-loop over %r' % (seq,))
-        if is_str:
+        if is_range:
+            pass
+        elif is_str:
             # iteration over the characters of an (immutable) string
             sstr = Val.s(seq.t)
             r = None
@@ -716,7 +728,10 @@ class Executor(Engine, ExprMixin, StmtMixin, CallMixin):
         st.guard = And(st.guard, iv < n)
         body_rec = {'name': name, 'guard': st.guard, 'cond': iv < n, 'n_begin': len(self.assumes)}
         self.body_regions.append(body_rec)
-        if is_str:
+        if is_range:
+            elem_t = mkI(iv)
+            es = parse_spec('int')
+        elif is_str:
             elem_t = mkS(z3.SubString(sstr, iv, 1))
             es = parse_spec('str')
             self.assume(st, z3.Length(z3.SubString(sstr, iv, 1)) == 1)
